@@ -185,7 +185,8 @@ def gen_plan(rng):
         prior.append({"o": "cache", "do": "off"})
     # occasionally toggle MasterConfig *between* the calls of a probe
     between = None
-    if rng.random() < 0.1:
+    two_step = any(op["p"] in ("desc_wait", "tract_set") for op in probe)
+    if rng.random() < (0.45 if two_step else 0.05):
         between = {"ns": rng.choice(("s", "n")), "ew": rng.choice(("e", "w"))}
     # A few runs sweep an interrupt over EVERY traced line of one prior call
     # that is identical to the first probe call (so that it touches the same
